@@ -88,6 +88,9 @@ impl<K: WideColumn, Db: KvDatabase> DynamicMap<K> for CacheDynamicMap<K, Db> {
             Arc::downgrade(&(self.cache.clone() as _)),
         );
 
+        #[cfg(feature = "verif")]
+        crate::verif::thread_point("dm_between_put_and_cache");
+
         let cache_key = (key, std::any::TypeId::of::<V>());
         self.cache.insert(
             cache_key,
@@ -106,6 +109,9 @@ impl<K: WideColumn, Db: KvDatabase> DynamicMap<K> for CacheDynamicMap<K, Db> {
             None,
             Arc::downgrade(&(self.cache.clone() as _)),
         );
+
+        #[cfg(feature = "verif")]
+        crate::verif::thread_point("dm_between_put_and_cache");
 
         let cache_key = (key.clone(), std::any::TypeId::of::<V>());
         self.cache.remove(&cache_key, updated);
